@@ -1,7 +1,9 @@
 """C06 — a successful write has reached the replicas its consistency level promises."""
 import json
 
+import actor_trace
 import vlib
+from checks import actor_traces
 
 ASSUMPTIONS = [
     "Consistency.tla: every layout of the list, every level, every allowed selection, every subset of replicas that refuses the write or applies it and "
@@ -26,10 +28,21 @@ def run(ctx):
     if not vlib.require_clean_mc(ctx, mc, text, "MC_Consistency"):
         raise vlib.ToolError("Consistency.tla violates %s: specification error" % mc["violated"])
     ctx.log("MC_Consistency: %d states" % mc["distinct"])
+    # the task distributor's own specification (wider specification, not part of the C06 verdict)
+    dcfg = vlib.cfg_text(constants=dict(Keyspaces={'"a"', '"b"'}, Items={1, 2, 3}, Nodes={1}, MaxOps=3),
+                         invariants=["ExactlyOnce", "FifoPerKeyspace", "NoEmptyBatch"])
+    dmc, dtext = vlib.run_tlc(ctx, "MC_Distributor", dcfg, "mc_dist", workers=4, timeout=1200)
+    if not vlib.require_clean_mc(ctx, dmc, dtext, "MC_Distributor"):
+        raise vlib.ToolError("Distributor.tla violates %s: specification error" % dmc["violated"])
     trace = ctx.path("trace.ndjson")
+    events_dir = ctx.path("events")
+    import os
+    import shutil
+    shutil.rmtree(events_dir, ignore_errors=True)
+    os.makedirs(events_dir)
     out = vlib.run_harness(ctx, [binary, "record-consistency", "--layouts", LAYOUTS[ctx.tier], "--out", trace,
                                  "--slow-ms", "2600" if ctx.tier == "quick" else "6500", "--slow-every", "3" if ctx.tier == "quick" else "1"],
-                           timeout=3000)
+                           timeout=3000, env={"DATACAKE_VERIF_TRACE_DIR": events_dir})
     st = json.loads(out.strip().splitlines()[-1])
     if st["calls"] < 100:
         raise vlib.ToolError("vacuous recording: %s" % st)
@@ -55,7 +68,14 @@ def run(ctx):
     for e in tv["fails"][:4]:
         ctx.violations.append({"engine": "h-ec record-consistency + Trace_Consistency", "event": e,
                                "why": ["the call's outcome and the replicas' storage right after it do not satisfy the level's promise"]})
-    cov = {"states": mc["distinct"], "transitions": mc["generated"], "traces_validated_against_impl": st["calls"],
+    # the same real clusters, seen from inside: what their task distributors batched (Distributor.tla) and what their
+    # keyspace actors did (Trace_KeyspaceActor.tla); reported as conformance of the wider specification, not as C06 verdicts
+    files = actor_trace.files_in(events_dir)
+    inside = {"distributors": actor_traces.validate_distributors(ctx, files, "clusters"),
+              "keyspace_actors": actor_traces.validate(ctx, files, "clusters_actors", [], max_events=40000)}
+    shutil.rmtree(events_dir, ignore_errors=True)
+    inside["distributor_model"] = {"states": dmc["distinct"], "transitions": dmc["generated"]}
+    cov = {"inside_the_clusters": inside, "states": mc["distinct"], "transitions": mc["generated"], "traces_validated_against_impl": st["calls"],
            "samples": samples[:5], "calls": st["calls"], "clusters": st["layouts"], "outcomes": results,
            "calls_with_a_slow_replica": slow_calls, "later_checks": st["later_checks"], "events_rejected": len(tv["fails"])}
     return vlib.finish(ctx, "model_checking", cov, ASSUMPTIONS)
